@@ -72,8 +72,10 @@ def fp_arg(case, alpha, bmode):
 def run_fp_batch(ns, rootkind, bmode, argb, cases):
     """One trace: a FilePath on the chosen root, a batch of independent calls."""
     from twisted.python.filepath import FilePath
-    rootpath = {"R": ns.root, "Ra": os.path.join(ns.root, "a"), "slash": "/"}[rootkind]
-    fp = FilePath(rootpath.encode() if bmode else rootpath)
+    # "Rnu": a parent whose on-disk name is not UTF-8 -- text mode holds it surrogate-escaped, bytes mode raw.  Returned
+    # paths and the root are logged as their on-disk bytes (adapter comps(): str -> utf-8 + surrogateescape).
+    rootpath = {"R": ns.root, "Ra": os.path.join(ns.root, "a"), "slash": "/", "Rnu": ns.nonutf}[rootkind]
+    fp = FilePath(os.fsencode(rootpath) if bmode else rootpath)
     alpha = fp_alphabet(ns, argb)
     ev = []
     for c in cases:
@@ -137,6 +139,31 @@ class Web:
         return {"e": "web", "acc": acc, "served": self.ns.served(body), "target": target, "code": code}
 
 
+def run_web_history(ns, reactor, ignored, before, after, how):
+    """A long-lived resource: requests `before`, then the root directory is rotated away by the environment (how =
+    "rename": root -> <root>.old next to it; "remove": root deleted, a <root>.old directory exists next to it),
+    then requests `after`.  The rotation is not an event; the configured root stays the path the resource was made for."""
+    import shutil
+    from harness.adapters.c26_c54_pathns import AUDIT
+    ns.build()
+    w = Web(ns, reactor, ignored)
+    ev = [w.get(t) for t in before]
+    AUDIT.enabled = False
+    old = ns.root + ".old"
+    if how == "rename":
+        os.rename(ns.root, old)
+    else:
+        shutil.copytree(ns.root, old)
+        shutil.rmtree(ns.root)
+    with open(os.path.join(old, "secret.txt"), "wb") as fh:
+        fh.write(b"FILE:P/root.old/secret.txt;")
+    ev += [w.get(t) for t in after]
+    cfg = {"root": ns.comps(ns.root), "cwd": ns.comps(os.getcwd())}
+    ns.build()
+    return {"cfg": cfg, "kind": "webhist", "ignored": list(ignored), "how": how, "before": list(before),
+            "targets": list(before) + list(after), "ev": ev}
+
+
 def run_web_batch(ns, reactor, ignored, targets):
     w = Web(ns, reactor, ignored)
     ev = [w.get(t) for t in targets]
@@ -181,7 +208,8 @@ def describe(trace, i):
     ev = trace["ev"][i]
     if trace["kind"] == "fp":
         return "FilePath(%s).%s(%r) -> %s %s" % ("/".join(trace["cfg"]["root"]), ev["e"], trace["cases"][i][1], ev["res"], "/".join(ev.get("path", ())))
-    return "GET %s on static.File(%s, ignoredExts=%s) -> %s accesses=%s served=%s" % (
+    return "%sGET %s on static.File(%s, ignoredExts=%s) -> %s accesses=%s served=%s" % (
+        ("after %s and root %sd: " % (trace["before"], trace["how"])) if trace["kind"] == "webhist" and i >= len(trace["before"]) else "",
         ev["target"], "/".join(trace["cfg"]["root"]), trace.get("ignored"), ev["code"],
         [(k, "/".join(p)) for k, p in ev["acc"]], ["/".join(p) for p in ev["served"]])
 
@@ -189,6 +217,9 @@ def describe(trace, i):
 def replay_obj(trace, i):
     if trace["kind"] == "fp":
         return dict(kind="fp", rootkind=trace["rootkind"], bmode=trace["bmode"], argb=trace["argb"], cases=[trace["cases"][i]])
+    if trace["kind"] == "webhist":
+        nb = len(trace["before"])
+        return dict(kind="webhist", ignored=trace["ignored"], how=trace["how"], before=trace["before"], after=[trace["targets"][max(i, nb)]])
     return dict(kind="web", ignored=trace["ignored"], targets=[trace["targets"][i]])
 
 
@@ -339,6 +370,12 @@ def run(ctx):
     for batch in chunks(fp_cases(FULL, 1, 2), B):                       # mixed str/bytes
         traces.append(run_fp_batch(ns, "R", False, True, batch))
         traces.append(run_fp_batch(ns, "R", True, False, batch))
+    # a non-UTF-8 parent in text and bytes mode, names in the same and in the other mode (mixed-mode calls)
+    nu = list(fp_cases(CORE, 1, 2)) + [("descendant", [[a], [b]]) for a in CORE for b in ("a", "..", "rootbar", "")]
+    for bmode in (False, True):
+        for argb in (False, True):
+            for batch in chunks(nu, B):
+                traces.append(run_fp_batch(ns, "Rnu", bmode, argb, batch))
     two = [list(x) for x in seqs(ctx.pick(SIX, CORE), 1, 2)]
     desc = [("descendant", [list(n) for n in lst]) for lst in seqs([(s,) for s in FULL], 0, ctx.pick(2, 3))]
     desc += [("descendant", [list(n) for n in lst]) for lst in seqs([(s,) for s in CORE], 3, ctx.pick(3, 4))]
@@ -368,7 +405,7 @@ def run(ctx):
                 k = rng.randint(1, 3)
                 cases.append(("descendant", [name[i::k] for i in range(k)]))
         bm = rng.random() < 0.3
-        traces.append(run_fp_batch(ns, rng.choice(["R", "R", "Ra"]), bm, bm, cases))
+        traces.append(run_fp_batch(ns, rng.choice(["R", "R", "Ra", "Rnu"]), bm, bm if rng.random() < 0.7 else not bm, cases))
     nfp = sum(len(t["ev"]) for t in traces)
     ctx.log("FilePath: %d real calls (%d exhaustive)" % (nfp, nexh))
 
@@ -396,6 +433,13 @@ def run(ctx):
                 t += ("/" if i == 0 else rng.choice(JOIN_FULL if rng.random() < 0.4 else JOIN_CORE)) + rng.choice(WEB_NAMES_FULL)
             batch.append(t)
         traces.append(run_web_batch(ns, reactor, rng.choice([(), ("*",), (".ext",)]), batch))
+    # histories: the root is rotated away under a long-lived resource
+    before = ["/f", "/", "/a/f", "/nx"]
+    after = list(web_targets(WEB_NAMES_CORE + ["secret.txt", "root.old"], JOIN_CORE, 1, 2)) + ["/./secret.txt", "/%2e/secret.txt", "/a%2f..%2fsecret.txt", "/a%2f../f"]
+    for how in ("rename", "remove"):
+        for ign in ((), ("*",), (".old",)):
+            traces.append(run_web_history(ns, reactor, ign, before, after, how))
+            nwexh += len(after)
     nweb = sum(len(t["ev"]) for t in traces) - nfp
     ctx.log("static.File/Site: %d real requests (%d exhaustive)" % (nweb, nwexh))
     if not ns.pristine():
@@ -455,7 +499,7 @@ def _digest(t):
 def _codes(traces):
     c = {}
     for t in traces:
-        if t["kind"] == "web":
+        if t["kind"] in ("web", "webhist"):
             for e in t["ev"]:
                 c[e["code"]] = c.get(e["code"], 0) + 1
     return c
@@ -479,6 +523,8 @@ def replay(ctx, obj):
     ns.build()
     if obj["kind"] == "fp":
         t = run_fp_batch(ns, obj["rootkind"], obj["bmode"], obj["argb"], [tuple(c) for c in obj["cases"]])
+    elif obj["kind"] == "webhist":
+        t = run_web_history(ns, reactor, tuple(obj["ignored"]), obj["before"], obj["after"], obj["how"])
     else:
         t = run_web_batch(ns, reactor, tuple(obj["ignored"]), obj["targets"])
     ctx.note_trace(t, nontrivial=True)
